@@ -153,8 +153,8 @@ Definition serialize_value (v : avalue) : option str :=
   | AList [] | ANone | ADict [] => None
   | AList opts => Some (join_sp opts)
   | ADict kvs => Some (strip (flat_map (fun kv => match snd kv with
-                                                  | Some (c :: v) => fst kv ++ [61] ++ (c :: v) ++ [sp]
-                                                  | _ => fst kv ++ [sp]
+                                                  | Some v => fst kv ++ [61] ++ v ++ [sp]       (* an empty value is kept: "k=" (fix 14e946c) *)
+                                                  | None => fst kv ++ [sp]
                                                   end) kvs))
   end.
 Definition serialize_annotation (a : str * avalue) : str :=
